@@ -239,7 +239,8 @@ def run_opt(case):
             acc.violation("C07.not_optimal_bruteforce", "suboptimal" if ((got > ref) if d == "min" else (got < ref))
                           else "better-than-any-valid",
                           {"objective": "+".join(o["kind"] for o in spec["objectives"]),
-                           "optimizer": cfg.get("optimizer", "incremental"), "priority": cfg.get("optimize_priority")},
+                           "optimizer": cfg.get("optimizer", "incremental"), "priority": cfg.get("optimize_priority"),
+                           "has_buffer": bool(spec.get("buffers"))},
                           {"returned": got, "reference": ref, "valid_candidates": nvalid})
     else:
         acc.count(acc.clauses, "C07.optimum_eq_bruteforce:B")
@@ -249,7 +250,8 @@ def run_opt(case):
     if ans == "sat":
         acc.violation("C07.better_schedule_exists", "suboptimal",
                       {"objective": "+".join(o["kind"] for o in spec["objectives"]),
-                       "optimizer": cfg.get("optimizer", "incremental"), "priority": cfg.get("optimize_priority")},
+                       "optimizer": cfg.get("optimizer", "incremental"), "priority": cfg.get("optimize_priority"),
+                       "has_buffer": bool(spec.get("buffers"))},
                       {"returned": got, "better_schedule": {n: [t["scheduled"], t["start"], t["end"]]
                                                             for n, t in better["tasks"].items()},
                        "better_indicators": better["indicators"]})
